@@ -304,6 +304,42 @@ pub fn generate(kind: &str, thorough: bool, seed: u64, corpus: &str, out: &mut O
                 for t in random_docs(&si, &mut rng, 40, 4) { crate::collectcases::collect_case(&si, &t, out); }
             }
         }
+        "c11" => {
+            let tmp = tmpdir();
+            let rules = ["UniqueOperationNames", "LoneAnonymousOperation", "SingleFieldSubscriptions"];
+            let implicit = gen::SchemaInfo::new("implicit-roots", &format!("{}{}", schemas::PRELUDE, "type Query { a: Int } type Mutation { m: Int } type Subscription { s1: Int s2: Int }"));
+            let explicit = gen::SchemaInfo::new("explicit-roots", &format!("{}{}", schemas::PRELUDE, "schema { query: Q mutation: M subscription: Subscription } type Q { a: Int } type M { m: Int } type Subscription { s1: Int s2: Int } type Query { zz: Int }"));
+            let nosub = gen::SchemaInfo::new("no-subscription", &format!("{}{}", schemas::PRELUDE, "schema { query: Query } type Query { a: Int }"));
+            let ops = ["{ a }", "query { a }", "query A { a }", "query B { a }", "mutation A { m }", "mutation { m }", "subscription A { s1 }", "subscription { s1 s2 }"];
+            let maxn = if thorough { 4 } else { 3 };
+            for si in [&implicit, &explicit, &nosub] {
+                out.schema(si);
+                let mut cur: Vec<Vec<&str>> = vec![vec![]];
+                for _ in 0..maxn {
+                    let mut next = vec![];
+                    for l in &cur { for o in ops.iter() { let mut m = l.clone(); m.push(*o); next.push(m); } }
+                    for l in &next { crate::valcases::rules_case(si, &l.join(" "), &rules, &tmp, out); }
+                    cur = next;
+                }
+                let budget = if thorough { 4 } else { 3 };
+                let bodies = crate::enumgen::selsets(&["s1", "s2", "k: s1", "s1: s2", "__typename"], &["", "Subscription", "Query", "Zed"], &["F", "G"], budget, 3);
+                for (i, b) in bodies.iter().enumerate() {
+                    let name = if i % 2 == 0 { " Sub" } else { "" };
+                    let text = format!("subscription{} {} fragment F on Subscription {{ s1 ...G }} fragment G on Subscription {{ k: s2 ...F }}", name, b);
+                    crate::valcases::rules_case(si, &text, &rules, &tmp, out);
+                }
+            }
+            for si in pool() {
+                out.schema(&si);
+                for t in corpus_docs(corpus, &si.name) { crate::valcases::rules_case(&si, &t, &rules, &tmp, out); }
+                for t in random_docs(&si, &mut rng, 100 * scale, 4) { crate::valcases::rules_case(&si, &t, &rules, &tmp, out); }
+            }
+            for i in 0..(8 * scale) {
+                let si = gen::SchemaInfo::new(&format!("random{}", i), &gen::random_schema(&mut rng));
+                out.schema(&si);
+                for t in random_docs(&si, &mut rng, 50, 4) { crate::valcases::rules_case(&si, &t, &rules, &tmp, out); }
+            }
+        }
         _ => panic!("unknown kind {}", kind),
     }
 }
